@@ -62,6 +62,12 @@
     (! (and (not (tok.isByte (tok.pk v f))) (not (tok.isByte (tok.vk v f))) (not (tok.isByte (tok.cs v)))
             (not (= (tok.pk v f) (tok.vk w g))) (not (= (tok.pk v f) (tok.cs w))) (not (= (tok.vk v f) (tok.cs w))))
        :pattern ((tok.pk v f) (tok.vk w g)))))
+; kinds of section tokens (used for the completeness direction of the readers: a complete section of the right kind is read)
+(declare-fun tok.isPk (Int) Bool)
+(declare-fun tok.isVk (Int) Bool)
+(declare-fun tok.isCs (Int) Bool)
+(axiom tok_kind_pkvk (forall ((v Int) (f Int)) (! (and (tok.isPk (tok.pk v f)) (tok.isVk (tok.vk v f))) :pattern ((tok.pk v f)) :pattern ((tok.vk v f)))))
+(axiom tok_kind_cs (forall ((v Int)) (! (tok.isCs (tok.cs v)) :pattern ((tok.cs v)))))
 (axiom tok_inj
   (forall ((v Int) (f Int) (w Int) (g Int))
     (and (=> (= (tok.pk v f) (tok.pk w g)) (= v w)) (=> (= (tok.vk v f) (tok.vk w g)) (= v w)))))
